@@ -34,6 +34,10 @@ CLAIMED = {
   "guarded-by / dominance rules on add, MarkExecuted, UnMarkExecuted, checkNonce; must-pass-through inside the packing loop; lockset analysis of guarded fields with caller-side establishment; field-type table for shared structs",
   "For the pool's entry points: push only after a negative existence test over both stores; executed records written and flushed before removal from pending and deleted before re-adding; batch bounded by the per-block limit; no packing on the nonce-too-high edge and nonce advance implies packing; every field of TxPool/simpleContainer is thread-safe by type, immutable, or accessed only under its mutex at every access site. Linearizability and third-party container internals are not decided.",
   "Trusted: golang-lru, gmap(safe=true), sync.Map, LevelDB are goroutine-safe. The fix: commit bc55981 (mutex around TxPool.batch) repaired finding F17; the lockset rule re-checks it on every run."),
+ "C02": ("3/C02",
+  "fresh-object (copy-on-write) store analysis over SSA value origins; created-node/dirty-flag pairing; guard-edge checks on cached-hash returns and on the minimal-form type tests; constant obligations on the embed threshold and force arguments",
+  "Structural necessary conditions of a history-independent MPT root decided for all 60 stores into node fields of storage/trie, every node created or copied in insert/delete, the three cached-hash returns, the embed threshold and all force arguments, the two wrap sites of delete, and the branch value slot. Equality of the root with the Yellow-Paper value, hex-prefix encoding and iteration order are value-level and not decided.",
+  "Trusted: go/ssa; node types are unexported so only package trie touches them; hashChildren returns fresh copies (reviewed)."),
 }
 
 NOT_YET = {}
